@@ -118,6 +118,48 @@ func (c *Ctx) evalLeafBatch(cases []*leafCase) {
 				Demand: fmt.Sprintf("verdict %v and no error, as for %q alone", lc.goObs.V, lc.text), Go: got.Line() + " " + got.ErrText, Model: lc.model})
 		}
 	}
+	// After an operand whose path breaks early: `dq.eqq.fq.hq pr or …` / `not (dq.eqq.fq eq null) or …` where the walk of the
+	// first operand stops one, two or three steps before its end (missing key, explicit nil, or an empty object on the way).
+	// The first operand is false and error-free, so the rule must give what the comparison gives alone.
+	for _, lc := range cases {
+		if !c.R.Chance(1, 6) || modelField(lc.model, "e") != "-" || lc.goObs.E != "-" || lc.leaf.T == NLogic || lc.leaf.T == NParen {
+			continue
+		}
+		if lc.obj.Get("dq") != nil || lc.obj.K != AVObj {
+			continue
+		}
+		depth := 2 + c.R.Intn(3)
+		path := []string{"dq", "eqq", "fq", "hq"}[:depth]
+		obj := lc.obj.GoMap()
+		if obj == nil {
+			obj = map[string]interface{}{}
+		}
+		var holder map[string]interface{} = obj
+		brk := c.R.Intn(depth) // the step at which the walk stops
+		for i := 0; i < brk; i++ {
+			nx := map[string]interface{}{}
+			holder[path[i]] = nx
+			holder = nx
+		}
+		if c.R.Chance(1, 2) {
+			holder[path[brk]] = nil
+		}
+		var first *Node
+		if c.R.Chance(1, 2) {
+			first = &Node{T: NPres, Path: path}
+		} else {
+			first = &Node{T: NParen, Neg: true, Q: &Node{T: NCmp, Path: path, Op: 13, Lit: Lit{Kind: "null", Text: "null"}}}
+		}
+		rule := &Node{T: NLogic, Or: true, L: first, R: lc.leaf}
+		text := c.style(true).Render(rule)
+		got := evalOn(text, obj, nil)
+		c.count(fmt.Sprintf("after_a_path_broken_%d_steps_before_its_end", depth-brk))
+		if got.V != lc.goObs.V || got.E != "-" {
+			c.violate(Violation{What: "after an operand whose path ends early (missing or nil parent) this comparison gives another outcome than it has alone",
+				Rule: text, RuleHex: hx(text), Object: fmt.Sprintf("%s plus the chain %v broken at step %d", lc.obj.Pretty(), path, brk), ObjProto: lc.obj.String(),
+				Demand: fmt.Sprintf("verdict %v and no error, as for %q alone", lc.goObs.V, lc.text), Go: got.Line() + " " + got.ErrText, Model: lc.model})
+		}
+	}
 }
 
 func modelField(line, key string) string {
@@ -141,6 +183,10 @@ func (c *Ctx) mkLeafCase(leaf *Node, attrGen func(idc *int) *AV, canonPct int) *
 	if a := attrGen(&idc); a != nil {
 		cur.Set(leaf.Path[len(leaf.Path)-1], a)
 	}
+	if c.R.Chance(1, 6) {
+		idc2 := 200
+		addDecoys(c.R, obj, [][]string{leaf.Path}, func() *AV { return nearValue(c.R, leaf, &idc2) })
+	}
 	return &leafCase{leaf: leaf, text: c.style(c.R.Chance(canonPct, 100)).Render(leaf), obj: obj}
 }
 
@@ -162,6 +208,11 @@ func (c *Ctx) pairCheck(prev *pairMem, lc *leafCase, expected bool, what string)
 		return
 	}
 	a, b := prev.lc, lc
+	for _, k := range b.obj.Keys {
+		if a.obj.Get(k) != nil {
+			return // the two objects cannot be merged: a (decoy) key of one is a key of the other
+		}
+	}
 	obj := avObj()
 	for i, k := range a.obj.Keys {
 		obj.Set(k, a.obj.Vals[i])
@@ -978,6 +1029,12 @@ func checkC10(c *Ctx) {
 			nx := avObj()
 			cur.Set(path[j], nx)
 			cur = nx
+		}
+		if c.R.Chance(1, 3) {
+			addDecoys(c.R, obj, [][]string{path}, func() *AV {
+				return pick(c.R, []*AV{avInt(1), {K: AVBool, B: true}, {K: AVBool, B: false}, avStr("x"), avInt(0)})
+			})
+			c.count("with_decoy_keys")
 		}
 		a, _ := denote(obj, path)
 		var expected bool
